@@ -51,12 +51,12 @@ ROUTES = ["StopgapMotl(df).write_out", "StopgapMotl(StopgapMotl).write_out", "Mo
 def plan(tier):
     if tier == "quick":
         return dict(n_cases=len(CLASSES) * 4 * 6, shards=4, classes=CLASSES, timeout_s=600,
-                    min_evals={"sg_export": 700, "sg_import": 1100, "write_out_file": 400, "star_fields": 400,
-                               "star_halfset_idx": 400, "update_coord": 1000, "star_reload": 800, "inmem_roundtrip": 300,
+                    min_evals={"sg_export": 950, "sg_import": 1300, "write_out_file": 620, "star_fields": 620,
+                               "star_halfset_idx": 620, "update_coord": 1000, "star_reload": 800, "inmem_roundtrip": 300,
                                "converters": 1200})
     return dict(n_cases=len(CLASSES) * 4 * 120, shards=16, classes=CLASSES, timeout_s=3000,
-                min_evals={"sg_export": 17000, "sg_import": 25000, "write_out_file": 10000, "star_fields": 10000,
-                           "star_halfset_idx": 10000, "update_coord": 19000, "star_reload": 16000, "inmem_roundtrip": 6500,
+                min_evals={"sg_export": 18500, "sg_import": 26000, "write_out_file": 11500, "star_fields": 11500,
+                           "star_halfset_idx": 11500, "update_coord": 19000, "star_reload": 16000, "inmem_roundtrip": 6500,
                            "converters": 23000})
 
 
